@@ -13,6 +13,7 @@ LEAN_TARGETS = ["PV.Props.C13"]
 # T-C tie: SGP4 stages traced from the current source are proved equal to the model over the reals
 import symtrace_sgp4  # noqa: E402
 EQUIV = dict(symtrace_sgp4.EQUIV_SGP4_GUARDS)
+EQUIV.update({"PV.Equiv.TranslatedPropagate": ["propagate_eq", "propagate_modes"]})      # T-D
 RULE = ("checksum-valid TLEs over the printable range of every field (mean motion 0-18.5 rev/day, e in [0, 0.9999999], i in "
         "[0, 180] deg, |B*| <= 0.1, all signs/exponents) plus boundary families (period near 225 min, perigee near 220/156/98 km, "
         "e in {0, 1e-7, 0.9999990..0.9999999}, i in {0, 180}), times within +-60 days; correspondence: the model's outcome class "
